@@ -61,6 +61,8 @@ class Observer(Wire):
     # -- wire -----------------------------------------------------------------------------
 
     def forward(self, pipe, data, index):
+        self.cur_index = index
+
         if self.decode:
             try:
                 self.observe(self.dirname(pipe), data)
@@ -145,6 +147,7 @@ class Observer(Wire):
                     self.first_neg = self.neg
                     self.strict = self.neg['strict']
         elif ptype == 21:
+            ds.newkeys_write = getattr(self, 'cur_index', None)
             self.switch_keys(dirname)
 
     def switch_keys(self, dirname):
